@@ -254,4 +254,26 @@ theorem C01_composed_accepts (H : Bytes → Bytes) (S : Signer.Scheme) (a : Arri
     (provider H S a).effects = [.sign, .store, .write] ∧ (provider H S a).result = .ok := by
   simp [provider, handleBid, envOf, g1, g2, g3, g4, g5, hwait, hs, ht, hw, statusAccepted, statusRejected]
 
+/-- **Every arrival of a session passes every gate itself.**  Whatever was handled before — an
+honest bid whose digest and signature this one re-uses, a refused bid, the same bid once already —
+the k-th arrival has a commitment effect only if the k-th arrival itself was sent by a proven
+bidder, was read, verifies (its digest is the hash of *its own* fields and the signature recovers
+over it), is funded, well-formed and accepted in time. -/
+theorem C01_session (H : Bytes → Bytes) (S : Signer.Scheme) (pre post : List Arrival) (a : Arrival)
+    (o : Obs) (ho : (providerSession H S (pre ++ a :: post))[pre.length]? = some o)
+    (h : o.effects ≠ []) :
+    a.role = 2 ∧ a.readOk = true ∧
+    (∃ d s pub, a.bid.digest = some d ∧ a.bid.signature = some s ∧ Signer.getBidHash H a.bid = .ok d ∧
+      s.length = 65 ∧ S.recover d (Signer.normaliseV s) = some pub ∧
+      S.verifyLowS pub d ((Signer.normaliseV s).take 64) = true) ∧
+    (∃ mn amt, Registry.read a.minAns = some mn ∧ Registry.read a.amtAns = some amt ∧ mn ≤ amt) ∧
+    ProviderSvc.validFormat a.bid.txHash a.bid.amount a.bid.blockNumber a.bid.decayStart a.bid.decayEnd
+      (a.bid.digest.getD []) = true ∧
+    acceptedInTime a.schedule = true := by
+  have : o = provider H S a := by
+    simp [providerSession] at ho
+    exact ho.symm
+  subst this
+  exact C01_composed H S a h
+
 end Composed
